@@ -11,12 +11,15 @@ Two parts.
 (2) Conservation in differential form: each primitive changes `available + occupied` by exactly
     what the property allows (registration +slots; add/update the difference; refund +slots of
     the completed appointment; a drop without refund leaves the balance alone = forfeited).
-    The sum form follows by telescoping over a history and is what the monitor recomputes from
-    the real tables after every operation.
+    The sum form is what the monitor recomputes from the real tables after every operation.
+(3) The sum form for whole histories (`Lemmas/TowerSlots.lean`): `held = available + occupied` of a user
+    never grows by more than a registration grants, in any step of any history, so in every reachable
+    state available + occupied ≤ granted (what is missing is what was forfeited).
 -/
 import TeosVerif.Lemmas.Tower
 import TeosVerif.Lemmas.TowerUsers
 import TeosVerif.Model.Slots
+import TeosVerif.Lemmas.TowerSlots
 
 namespace Teos.C07
 open Teos
@@ -214,5 +217,77 @@ it computed in memory, whatever the set of completed trackers and their owners -
 theorem refund_persists_what_memory_holds (s : Tower) (ks : List Uuid) (h : s.mem.users = s.db.users) :
     (deleteAppointments s ks true).mem.users = (deleteAppointments s ks true).db.users :=
   refund_users_eq s ks h
+
+
+/-! ### the sum form, for whole histories -/
+
+/-- **a_step_adds_only_what_it_grants**: in one step of any history — whatever the state, the request, the
+block, the node's answers — a user's available + occupied slots (`held`) grow by at most what the step grants
+them: the configured slots when it is their own registration and is not refused, nothing otherwise. A
+charge, an update (bigger, smaller, undecryptable, rejected), a refund of completed trackers, a drop of
+invalid or rejected ones, a purge, a reorg: none of them creates a slot. -/
+theorem a_step_adds_only_what_it_grants (cfg : Cfg) (s : Tower) (node : Node) (op : Op) (h : TInv s)
+    (hv : OpValid s op) (u : User) :
+    held (step cfg s node op).1 u ≤ held s u + granted cfg s op u :=
+  held_step cfg s node op h hv u
+
+/-- **a_submission_creates_no_slot**: `add_appointment` never leaves anyone with more available + occupied
+slots than before — in particular an update is charged against the stored version only when that version
+is replaced or dropped with it (the defect repaired by ac6383c: an undecryptable smaller update of a
+triggered appointment handed slots back while the old version stayed stored). -/
+theorem a_submission_creates_no_slot (s : Tower) (node : Node) (sg : Option User) (l : Loc) (b : Blob) (t w : Nat)
+    (h : TInv s) (u : User) : held (addAppointment s node sg l b t w).1 u ≤ held s u :=
+  (hl_addAppointment s node sg l b t w h).2 u
+
+/-- **a_block_creates_no_slot**: processing a block (purge of outdated users, breaches, completions with
+their refunds, reorged and stale trackers) never leaves anyone with more than before: a refund returns
+exactly what the deleted rows occupied, each once. -/
+theorem a_block_creates_no_slot (cfg : Cfg) (s : Tower) (node : Node) (b height : Nat) (txs : List TxId)
+    (h : TInv s) (hb : b ∉ s.mem.txIndex.blocks) (hh : Gen.CONFIRMATIONS_BEFORE_RETRY ≤ height) (u : User) :
+    held (connectBlock cfg s node b height txs).1 u ≤ held s u :=
+  (hl_connectBlock cfg s node b height txs h hb hh).2 u
+
+/-- **refund_returns_what_was_occupied**: deleting completed trackers with refund leaves available + occupied
+of every user exactly... at most what it was (the rows' slots move from occupied to available, each row once). -/
+theorem refund_returns_what_was_occupied (s : Tower) (ks : List Uuid) (h : TInv s)
+    (hk : ∀ k ∈ ks, (s.db.appts k).isSome = true) (nd : ks.Nodup) (u : User) :
+    held (deleteAppointments s ks true) u ≤ held s u :=
+  (hl_delete_refund s ks h hk nd).2 u
+
+/-- **nobody_holds_more_than_granted**: start the tower on an empty database and run ANY valid history. In the
+state reached, for every user, available slots + slots occupied by the appointments and trackers held
+for them ≤ the slots their registrations granted since their current record began (`runGrants` keeps that
+ghost count: + the configured slots at each accepted registration, back to zero when the record is purged).
+The difference is what was forfeited. -/
+theorem nobody_holds_more_than_granted (cfg : Cfg) (height : Nat) (blocks : List (Nat × List TxId))
+    (hnd : (blocks.map (·.1)).Nodup) (hist : List (Node × Op))
+    (hv : HistoryValid cfg (boot Db.empty height blocks) hist) (u : User) :
+    held (runGrants cfg (boot Db.empty height blocks) (fun _ => 0) hist).1 u ≤
+      (runGrants cfg (boot Db.empty height blocks) (fun _ => 0) hist).2 u := by
+  apply held_le_granted cfg hist _ _ (tinv_boot Db.empty height blocks DbInv.empty hnd) hv
+  intro x
+  have : held (boot Db.empty height blocks) x = 0 := by
+    apply held_absent _ (tinv_boot Db.empty height blocks DbInv.empty hnd)
+    rfl
+  omega
+
+/-- the state the ghost run reaches is the state the history reaches -/
+theorem ghost_run_is_the_run (cfg : Cfg) (hist : List (Node × Op)) (s : Tower) (g : User → Nat) :
+    (runGrants cfg s g hist).1 = runHistory cfg s hist := runGrants_fst cfg hist s g
+
+set_option maxRecDepth 20000 in
+/-- non-vacuity, on the history of the repaired defect: a 3-slot appointment; its dispute is mined and the node
+reports the penalty as already in the chain (no tracker); a 1-slot undecryptable update follows. The user
+ends with 4 available and nothing stored, of 5 granted: the update cost its one slot (before the repair: 4 available and 3 still occupied). -/
+example :
+    let cfg : Cfg := { slots := 5, duration := 400, grace := 6 }
+    let quiet : Node := { send := fun _ => .ok, get := fun _ => .rpc (-5) }
+    let inChain : Node := { send := fun _ => .rpc Gen.RPC_VERIFY_ALREADY_IN_CHAIN, get := fun _ => .rpc (-5) }
+    let hist : List (Node × Op) := [(quiet, .register 1), (quiet, .add (some 1) 3 (.enc 48 16480 4097) 10 0),
+      (inChain, .connect 101 111 [48]), (quiet, .add (some 1) 3 (.junk 7 100) 10 1)]
+    let blocks : List (Nat × List TxId) := [(1, []), (2, []), (3, []), (4, []), (5, []), (6, [])]
+    let r := runGrants cfg (boot Db.empty 110 blocks) (fun _ => 0) hist
+    HistoryValid cfg (boot Db.empty 110 blocks) hist ∧ avail r.1 1 = 4 ∧ occ r.1.db 1 = 0 ∧ r.2 1 = 5 := by
+  refine ⟨⟨trivial, trivial, ⟨by decide, by decide⟩, trivial, trivial⟩, by decide⟩
 
 end Teos.C07
